@@ -68,8 +68,9 @@ end Mast.Heap
 
 `Insert` = a *plan* (locate, load and split the child: everything that can fail; only allocates) +
 a *commit* (the in-place writes and `savePathForRoot`: cannot fail) + the growth loop.  `Delete` =
-plan (locate, `mergeNodes`) + commit + the height reduction.  With store loads failing at ANY
-positions (`Env.failAt` is arbitrary):
+plan (locate, `mergeNodes`) + commit + the height reduction.  With store loads AND calls of the
+layer function (the `Marshal` callback behind `DefaultLayer`) failing at ANY positions
+(`Env.failAt`, `Env.layerFailAt` are arbitrary):
 -/
 namespace Mast.Ptr
 open Mast.Heap
@@ -122,7 +123,26 @@ theorem C12_delete_known_finding_in_the_model :
       (fun t => (contents (kfBase.apply (kfEnv 2) 10 (.del 1 8 80)).1.ps.heap 5 t.root, t.size)))[1]? =
       some (some [.refn 1, .ent 4 40], 2) := by decide +kernel
 
+/-- the second known finding in the object-level model (kernel-checked): a tree of height 0 that
+    holds as many entries as its growth threshold; `Insert(7)` puts the entry in, then the layer
+    callback of the growth check fails (the fourth layer call; the third one — the call that
+    opens the Insert — leaves everything unchanged): the call returns an error, the entry is in,
+    the size is still 2 -/
+def kf2Env (ft : Nat) : Env :=
+  { layer := fun k => if k % 4 = 0 then 1 else 0, failAt := fun _ => false, layerFailAt := fun t => t == ft }
+def kf2Base : Sys := (Sys.run (kf2Env 1000) 10 {} [.load 0 0 0 2, .ins 0 3 30, .ins 0 5 50]).1
+theorem C12_insert_known_finding_in_the_model :
+    (kf2Base.apply (kf2Env 3) 10 (.ins 0 7 70)).2 = .err ∧
+    (kf2Base.apply (kf2Env 3) 10 (.ins 0 7 70)).1.trees.map
+      (fun t => (contents (kf2Base.apply (kf2Env 3) 10 (.ins 0 7 70)).1.ps.heap 5 t.root, t.size)) =
+      [(some [.ent 3 30, .ent 5 50, .ent 7 70], 2)] ∧
+    (kf2Base.apply (kf2Env 2) 10 (.ins 0 7 70)).2 = .err ∧
+    (kf2Base.apply (kf2Env 2) 10 (.ins 0 7 70)).1.trees.map
+      (fun t => (contents (kf2Base.apply (kf2Env 2) 10 (.ins 0 7 70)).1.ps.heap 5 t.root, t.size)) =
+      [(some [.ent 3 30, .ent 5 50], 2)] := by decide +kernel
+
 end Mast.Ptr
+#print axioms Mast.Ptr.C12_insert_known_finding_in_the_model
 #print axioms Mast.Ptr.C12_insert_error_partial
 #print axioms Mast.Ptr.C12_delete_error_partial
 #print axioms Mast.Ptr.C12_commit_phases_cannot_fail
